@@ -4,6 +4,7 @@ import (
 	"bytes"
 	"encoding/json"
 	"fmt"
+	"regexp"
 	"sort"
 	"strings"
 	"time"
@@ -148,8 +149,27 @@ func (p c15) chunksJoined(c *fw.Ctx, stmts []string, split []bool, sep string) {
 	switch {
 	case f2:
 		c.Violate("chunk-error", "chunks:error", cs, "the script evaluates without error at once but fails when fed in chunks")
-	case o1 != o2:
+	case o1 != o2 || g1 != g2:
 		sig := "chunks:output"
+		if o1 == o2 {
+			sig = "chunks:globals"
+		}
+		// the two other faces of "all macros of an input are defined, then all calls expanded, then it is evaluated"
+		// (open finding): a macro defined twice in one input (the last definition wins for every use), and a call
+		// NAME(...) that comes before NAME becomes a macro (expanded at once, an ordinary call statement by statement)
+		if name := c15MacroRedefined(stmts); name != "" {
+			sig = "chunks:macro-phases:redefined"
+		} else if c15MacroUsedBeforeDefined(stmts) {
+			sig = "chunks:macro-phases:name-used-before-definition"
+		}
+		if sig != "chunks:output" && sig != "chunks:globals" {
+			c.Violate("chunk-output", sig, cs, fmt.Sprintf("at once printed %q, in chunks %q; globals %q vs %q", clip(o1), clip(o2), clip(g1), clip(g2)))
+			return
+		}
+		if o1 == o2 {
+			c.Violate("chunk-globals", "chunks:globals", cs, fmt.Sprintf("final globals differ:\nat once   %q\nin chunks %q", clip(g1), clip(g2)))
+			return
+		}
 		if c15MacroBodyEffect(stmts) && c15SameLines(o1, o2) {
 			// all macros of an input are expanded before any of its statements runs: what a macro BODY prints (not its
 			// template) comes earlier at once than statement by statement; same lines, other order
@@ -159,6 +179,39 @@ func (p c15) chunksJoined(c *fw.Ctx, stmts []string, split []bool, sep string) {
 	case g1 != g2:
 		c.Violate("chunk-globals", "chunks:globals", cs, fmt.Sprintf("final globals differ:\nat once   %q\nin chunks %q", clip(g1), clip(g2)))
 	}
+}
+
+var c15MacroDefRe = regexp.MustCompile(`^\s*([A-Za-z_][A-Za-z0-9_]*)\s*=\s*macro\(`)
+
+// c15MacroRedefined returns a macro name that the statements define more than once.
+func c15MacroRedefined(stmts []string) string {
+	seen := map[string]int{}
+	for _, st := range stmts {
+		if m := c15MacroDefRe.FindStringSubmatch(st); m != nil {
+			seen[m[1]]++
+			if seen[m[1]] > 1 {
+				return m[1]
+			}
+		}
+	}
+	return ""
+}
+
+// c15MacroUsedBeforeDefined tells if some statement calls NAME(...) before the statement that makes NAME a macro.
+func c15MacroUsedBeforeDefined(stmts []string) bool {
+	for i, st := range stmts {
+		m := c15MacroDefRe.FindStringSubmatch(st)
+		if m == nil {
+			continue
+		}
+		call := regexp.MustCompile(`\b` + regexp.QuoteMeta(m[1]) + `\(`)
+		for _, before := range stmts[:i] {
+			if call.MatchString(before) {
+				return true
+			}
+		}
+	}
+	return false
 }
 
 // c15MacroBodyEffect tells if a statement defines a macro whose body does something before its quote().
@@ -184,6 +237,8 @@ func c15SameLines(a, b string) bool {
 }
 
 var c15MacroScripts = [][]string{
+	{"mr = macro(x) {quote(unquote(x) + 1)}", "println(mr(1))", "mr = macro(x) {quote(unquote(x) + 2)}", "println(mr(1))"},
+	{"fs = func(ms) {ms(2)}", "println(fs(x => x * 10))", "ms = macro(x) {quote(unquote(x) + 1)}", "println(ms(1))"},
 	{"rest_of = func(a, ..) {..}", "println(rest_of(1, 2))", "inc = macro(x) {quote(unquote(x) + 1)}", "println(rest_of(3, 4), inc(41))"},
 	{"func vz(..) {len(..)}", "println(vz(1, 2, 3))", "inc = macro(x) {quote(unquote(x) + 1)}", "println(vz(1, 2), inc(vz()))"},
 	{"mp = macro(x) {println(\"expanding\"); quote(unquote(x))}", "println(\"a\")", "println(mp(1))", "println(\"b\", mp(2))"},
